@@ -3,6 +3,7 @@ package vwal
 import (
 	"math"
 	"math/rand/v2"
+	"sort"
 )
 
 // script is a well-formed sequence of store calls: the store is open at op 0,
@@ -194,6 +195,70 @@ func genBig(rng *rand.Rand) script {
 	return script{Profile: "big", Ops: g.ops}
 }
 
+// genGap: the live heights sit far above the prune records. A handful of live heights get
+// their first entries in NON-monotone order across log rotations (reopen, or the rotation a
+// cleanup performs), so that a higher live height can have its entries in an older log file
+// than every entry of a lower live height; then runs of >= 256 prune records for low heights
+// make the clean-up remove obsolete files while those heights stay live.
+func genGap(rng *rand.Rand) script {
+	g := &gen{rng: rng}
+	base := uint64(1000 + rng.IntN(5000))
+	next := uint64(1) // next low height to prune
+	// n flushed batches that each carry a prune record (several prunes buffered in one batch
+	// are coalesced into one record by the store, so they count once)
+	pruneRun := func(n int) {
+		for i := 0; i < n; i++ {
+			for k := 1 + rng.IntN(5)/4; k > 0; k-- {
+				g.del(next)
+				next++
+			}
+			g.add(opFlush)
+		}
+	}
+	live := rng.Perm(2 + rng.IntN(3)) // offsets, in the order their first entry is written
+	if rng.IntN(2) == 0 {
+		sort.Sort(sort.Reverse(sort.IntSlice(live))) // highest first
+	}
+	for i, off := range live {
+		h := base + uint64(off)
+		for k := 1 + rng.IntN(3); k > 0; k-- {
+			g.entryKind(h, pick(rng, eStart, eProp, ePrevote, ePrecomm), int64(rng.IntN(2)))
+		}
+		g.add(opFlush)
+		if i == len(live)-1 {
+			break
+		}
+		switch rng.IntN(10) {
+		case 0, 1, 2, 3, 4, 5:
+			g.reopen()
+		case 6, 7, 8:
+			pruneRun(256 + rng.IntN(6)) // the cleanup rotates the log
+		}
+	}
+	pruneRun(256 + rng.IntN(10))
+	if rng.IntN(2) == 0 {
+		// more entries for live heights (old and new files), another cleanup
+		for k := 1 + rng.IntN(4); k > 0; k-- {
+			g.entryKind(base+uint64(live[rng.IntN(len(live))]), pick(rng, eProp, ePrevote, ePrecomm), int64(rng.IntN(3)))
+			g.maybeFlush(50)
+		}
+		g.add(opFlush)
+		if rng.IntN(2) == 0 {
+			g.reopen()
+		}
+		pruneRun(256 + rng.IntN(10))
+	}
+	if rng.IntN(3) == 0 {
+		// the lowest live height is decided: pruned for real
+		g.del(base)
+		g.add(opFlush)
+	}
+	g.reopen()
+	g.entryKind(base+5, eStart, 0)
+	g.add(opClose)
+	return script{Profile: "gap-cleanup", Ops: g.ops}
+}
+
 // genCase picks the profile from the case index so that every run of the tier
 // contains all profiles (cleanup scripts are the expensive ones).
 func genCase(rng *rand.Rand, idx int) script {
@@ -204,6 +269,8 @@ func genCase(rng *rand.Rand, idx int) script {
 		return genBig(rng)
 	case 2, 3:
 		return genDriver(rng, 3+rng.IntN(25), false)
+	case 5:
+		return genGap(rng)
 	case 4:
 		if idx%20 == 4 {
 			return genDriver(rng, 515+rng.IntN(30), true) // two cleanups: second one removes files
